@@ -329,11 +329,9 @@ def run_check(prop, tier, jobs=None, seed=None, out=sys.stdout):
     k = max(1, len(samples) // 5)
     samples = samples[seed % k::k][:5]
 
-    # vacuity guards
+    # vacuity guards (applied below, to runs WITHOUT violations only: a failing case cuts its own exploration short, so a feature that was
+    # not reached next to reported violations says nothing about the harness)
     missing = [f for f in getattr(mod, "REQUIRED_FEATURES", []) if features.get(f, 0) == 0]
-    if missing:
-        print(f"HARNESS-ERROR: {prop} vacuity guard: feature(s) never reached: {missing}", file=out)
-        return 2
 
     # classify
     known = {(k["property"], k["classifier"]): k for k in load_known()}
@@ -353,6 +351,10 @@ def run_check(prop, tier, jobs=None, seed=None, out=sys.stdout):
             viol.append(f)
     n_viol = sum(n for sig, n in by_sig.items()
                  if not ((prop, sig.split("|", 1)[1]) in known and known[(prop, sig.split("|", 1)[1])].get("status") == "known"))
+
+    if missing and not viol:
+        print(f"HARNESS-ERROR: {prop} vacuity guard: feature(s) never reached: {missing}", file=out)
+        return 2
 
     rc = 0
     reported = []
